@@ -33,7 +33,9 @@ REQUIRED_CLASSES = ["config:python-O+linebreak", "has-linebreak", "has-colon-or-
 
 CTRL = re.compile(r"[\x00-\x08\x0a-\x1f\x7f]")
 RFC_BY_KIND = {
-    "text": ["SUMMARY", "DESCRIPTION", "COMMENT", "LOCATION", "CONTACT"], "uri": ["URL", "TZURL"], "caladdr": ["ATTENDEE", "ORGANIZER"],
+    # own lists (not read from the library's tables): every TEXT / URI / CAL-ADDRESS property of RFC 5545
+    "text": ["SUMMARY", "DESCRIPTION", "COMMENT", "LOCATION", "CONTACT", "REQUEST-STATUS", "RELATED-TO", "TZNAME", "STATUS", "TRANSP", "CLASS", "ACTION", "RESOURCES"],
+    "uri": ["URL", "TZURL", "ATTACH"], "caladdr": ["ATTENDEE", "ORGANIZER"],
     "int": ["PRIORITY", "SEQUENCE"], "datetime": ["COMPLETED", "DTSTART"], "category": ["CATEGORIES"], "inline": [],
     "bool": [], "float": [],
 }
@@ -458,9 +460,23 @@ def _sweep(i):
     return {"path": p, "name": "CATEGORIES", "params": [["X-P", [s, "z"]]], "kind": "category", "value": [s, "k"]}
 
 
+def _name_sweep():
+    """every listed RFC property name x canonical values with each structural character, on both paths"""
+    out = []
+    vals = {"text": ["a\nb", "a;b,c:d", "two\r\nlines", 'q"uote', "plain", ""], "uri": ["http://example.com/a;b,c?d=e", "mailto:a@example.com"],
+            "caladdr": ["mailto:a,b@example.com", "MAILTO:x;y@example.com"]}
+    for kind, names in RFC_BY_KIND.items():
+        for nm in names:
+            for v in vals.get(kind, []):
+                for path in ("line", "tree"):
+                    out.append({"path": path, "name": nm, "params": [["X-P", "1;2"]] if len(v) % 2 else [], "kind": kind, "value": v})
+    return out
+
+
 def streams(tier):
     n = 2500 if tier == "quick" else 50000
     return [
+        Stream("every-listed-name", "fixed", 0, 4, _name_sweep, True, False),
         Stream("injection-sweep", "enum", 4 * 2 * _T, 8, _sweep, True, True),
         Stream("triples", "hyp", n, 16, cases),
         # configuration: python -O.  One child interpreter per case, so the stream is small.
